@@ -144,6 +144,11 @@ fn build(seed: u64) -> Layout {
             main.push_str(&format!("include \"{}\";\n", dirs[d].join(fname(f)).display()));
             includes_in_main.push((f * 100 + d, true));
         } else {
+            // now and then an annotation directly in front of the include: it belongs to the first
+            // statement of the included text
+            if r.chance(1, 4) {
+                main.push_str("@before_include some words\n");
+            }
             main.push_str(&format!("include \"{}\";\n", fname(f)));
             includes_in_main.push((f, false));
         }
